@@ -525,6 +525,8 @@ pub enum Step {
     WAcc(String, MVal),
     Store(bool),
     Save,
+    /// the storage medium becomes writable / unwritable
+    EnvW(bool),
     /// new process: build, set store, optional `restart(mode)` as run.rs does, load
     Power(Option<Mode>),
 }
@@ -540,6 +542,10 @@ pub struct Case {
     pub cfg_inits: Vec<CfgInit>,
     pub history: Vec<Step>,
     pub twin: bool,
+    /// storage medium: scripted store (true) or the real FileRetainStore (false)
+    pub scripted_store: bool,
+    /// the medium is unwritable at the start (file store: the directory does not exist yet)
+    pub store_starts_unwritable: bool,
 }
 
 impl Case {
